@@ -66,14 +66,30 @@ Theorem C20_one_line_per_event : forall p e out,
 Proof. exact one_line_per_event. Qed.
 Print Assumptions C20_one_line_per_event.
 
-(* ---- hostport never panics, for EVERY address: with a ':' it splits at the last one
-   (the port contains none), without one the host is the whole string ---- *)
+(* ---- hostport never panics, for EVERY address, and is the net.SplitHostPort-style split
+   ([hostport_spec], Model/Logger.v: no ':' -> the whole string is the host; otherwise the last
+   ':' separates the port and a host of the form "[" inner "]" loses its brackets); the spec
+   has exactly one solution ---- *)
 Theorem C20_hostport_total : forall s : str,
-  exists h p, hostport s = Ok (h, p) /\
-    (has_colon s = true -> s = h ++ [58] ++ p /\ has_colon p = false) /\
-    (has_colon s = false -> h = s /\ p = []).
+  exists h p, hostport s = Ok (h, p) /\ hostport_spec s h p.
 Proof. exact hostport_total. Qed.
 Print Assumptions C20_hostport_total.
+
+Theorem C20_hostport_spec_unique : forall s h1 p1 h2 p2,
+  hostport_spec s h1 p1 -> hostport_spec s h2 p2 -> h1 = h2 /\ p1 = p2.
+Proof. exact hostport_spec_unique. Qed.
+Print Assumptions C20_hostport_spec_unique.
+
+(* bracketed IPv6 literals and plain host:port, as net.SplitHostPort splits them *)
+Theorem C20_hostport_bracketed : forall inner port, has_colon port = false ->
+  hostport ([91] ++ inner ++ [93] ++ [58] ++ port) = Ok (inner, port).
+Proof. exact hostport_bracketed. Qed.
+Print Assumptions C20_hostport_bracketed.
+
+Theorem C20_hostport_plain : forall host port, has_colon port = false -> hd 0 host <> 91 ->
+  hostport (host ++ [58] ++ port) = Ok (host, port).
+Proof. exact hostport_plain. Qed.
+Print Assumptions C20_hostport_plain.
 
 (* ---- Logger.Log never panics: any format, any addresses (with or without port), any
    zone, any headers; [event_ok] only says the numbers are ones time.Time / net/http can
@@ -143,15 +159,20 @@ Theorem C20_local_time_labelled_utc_refuted :
 Proof. exact local_time_labelled_utc_refuted. Qed.
 Print Assumptions C20_local_time_labelled_utc_refuted.
 
-(* ---- still open (F-C20-3) ---- *)
+(* ---- F-C20-3, REPAIRED in /repo by 0f981ad: the theorem is about [hostport_unrepaired] and
+   also states what the repaired helper returns on the witness ---- *)
 Theorem C20_ipv6_brackets_kept_refuted :
-  hostport (bs "[::1]:8080") = Ok (bs "[::1]", bs "8080").
+  hostport_unrepaired (bs "[::1]:8080") = Ok (bs "[::1]", bs "8080") /\
+  hostport (bs "[::1]:8080") = Ok (bs "::1", bs "8080").
 Proof. exact ipv6_brackets_kept_refuted. Qed.
 Print Assumptions C20_ipv6_brackets_kept_refuted.
 
 Theorem C20_hostport_examples :
   hostport (bs "10.0.0.7:8080") = Ok (bs "10.0.0.7", bs "8080") /\
-  hostport (bs "backend") = Ok (bs "backend", []) /\ hostport_unrepaired (bs "backend") = Panic.
+  hostport (bs "backend") = Ok (bs "backend", []) /\ hostport_unrepaired (bs "backend") = Panic /\
+  hostport (bs "[::1]:8080") = Ok (bs "::1", bs "8080") /\
+  hostport (bs "[]:80") = Ok ([], bs "80") /\ hostport (bs "[:80") = Ok (bs "[", bs "80") /\
+  hostport (bs "[::1]") = Ok (bs "[:", bs "1]").
 Proof. exact hostport_examples. Qed.
 Print Assumptions C20_hostport_examples.
 
@@ -259,17 +280,17 @@ Proof. exact pad_dec_is_dec. Qed.
 Print Assumptions C20_pad_dec_is_dec.
 
 (* the string fields are the identity on the event's strings (no quoting, no escaping);
-   host / port are the two halves hostport returns *)
+   host / port are THE net.SplitHostPort-style split of the address ([hostport_spec]) *)
 Theorem C20_string_fields_identity : forall e,
   render_field FUpAddr e = Ok (e_upaddr e) /\ render_field FUpService e = Ok (e_upsvc e) /\
-  (exists h p, hostport (e_upaddr e) = Ok (h, p) /\
+  (exists h p, hostport_spec (e_upaddr e) h p /\
                render_field FUpHost e = Ok h /\ render_field FUpPort e = Ok p) /\
   (forall r, e_req e = Some r ->
      render_field FRemoteAddr e = Ok (rq_remote r) /\
      render_field FRequest e = Ok (rq_method r ++ [32] ++ rq_uri r ++ [32] ++ rq_proto r) /\
      render_field FRequestHost e = Ok (rq_host r) /\ render_field FRequestMethod e = Ok (rq_method r) /\
      render_field FRequestURI e = Ok (rq_uri r) /\ render_field FRequestProto e = Ok (rq_proto r) /\
-     exists h p, hostport (rq_remote r) = Ok (h, p) /\
+     exists h p, hostport_spec (rq_remote r) h p /\
                  render_field FRemoteHost e = Ok h /\ render_field FRemotePort e = Ok p) /\
   (e_req e = None ->
      Forall (fun f => render_field f e = Ok [])
